@@ -118,6 +118,13 @@ func main() {
 		LenientPkgs:      map[string]bool{"time": true, "errors": true},
 		Trace:            *trace, SessionPaths: 150, LogDir: *logdir, Thorough: thorough,
 	}
+	eng.OpaqueAlways = map[string]string{
+		"(github.com/invopop/gobl.FieldErrors).Error":         "<field errors>",
+		"(github.com/invopop/validation.Errors).Error":        "<validation errors>",
+		"(*github.com/invopop/gobl.Error).Message":            "<message>",
+		"(*github.com/invopop/gobl.Error).Error":              "<gobl error>",
+		"(*github.com/invopop/gobl/internal/cli.Error).Error": "<cli error>",
+	}
 	eng.OpaqueStrings = map[string]string{}
 	for k, v := range cfg.Opaque {
 		eng.OpaqueStrings[resolveName(k)] = v
